@@ -1,14 +1,16 @@
 import F3.Spec.GraniteNet
 import F3.Props.C08
+import F3.Proofs.BridgeEx
 /-!
 # C01 — Agreement
 
 Layer A (`F3.Granite.World.decide_quorums_agree`): in any world satisfying the honest rules, two values
 each backed by a strong DECIDE quorum are equal.  Layer N (`F3.Granite.inv_reachable`): the rules are an
 inductive invariant of the guarded message-level network model, whatever Byzantine members (< 1/3 of
-scaled power) sign and whatever the delivery schedule.  Layer B (Props C07 + correspondence): the
-executable model of `gpbft.go` reports a decision only when holding a strong DECIDE quorum and emits
-only under the guards.
+scaled power) sign and whatever the delivery schedule.  Layer B (`F3.Instance.runFrom_guarded`, `F3.Bridge.rules_of_runs`): the
+executable model of `gpbft.go` (`Instance.step`, tied to the implementation by the correspondence run) emits
+only under the guards and reports a decision only when holding a strong DECIDE quorum, so any family of
+honest model runs satisfies the rules: `agreement_model` is agreement of the executable model itself.
 -/
 namespace F3.Props.C01
 open F3.Granite
@@ -168,5 +170,35 @@ theorem ex_decided : ∃ s, Reachable exC s ∧ Decided exC s 7 ∧ s 3 0 .prepa
   · exact m3 _ _ _ _ (m2 _ _ _ _ (m1 _ _ _ _ (Or.inl (Or.inr ⟨rfl, rfl, rfl, rfl⟩))))
   · exact m3 _ _ _ _ (m2 _ _ _ _ (m1 _ _ _ _ (Or.inr ⟨rfl, rfl, rfl, rfl⟩)))
 end Example
+
+
+/-! ## Agreement of the executable model (Layer B ⇒ Layer A) -/
+section Model
+open F3.Instance F3.Bridge
+
+/-- **Agreement, end to end for the model of the code.**  `N : Network t F W` says: power table `t` with
+distinct ids and positive total; Byzantine set `F` with less than a third of the power; `W` the set of validly
+signed votes in existence; every honest committee member `p` ran `Instance.step` from `init` on an arbitrary
+list of operations (`Start`, alarms, deliveries in any order and at any time) in which every delivered
+message is valid (`MsgValid`: its vote and the votes its justification aggregates exist in `W`), reported no
+internal error, and has exactly its own broadcasts as its votes in `W`.  Then any two honest members that
+report a decision report the same value. -/
+theorem agreement_model {t : Table} {F : Finset Pid} {W : Instance.Votes} (N : Network t F W)
+    (p q : Pid) (hp : p ∈ (ids t).toFinset) (hpF : p ∉ F) (hq : q ∈ (ids t).toFinset) (hqF : q ∉ F) (dp dq : Just)
+    (hdp : (run (init (N.runs p hp hpF).cfg t (N.runs p hp hpF).input) (N.runs p hp hpF).ops).1.termination = some dp)
+    (hdq : (run (init (N.runs q hq hqF).cfg t (N.runs q hq hqF).input) (N.runs q hq hqF).ops).1.termination = some dq) :
+    dp.value = dq.value :=
+  model_agreement N p q hp hpF hq hqF dp dq hdp hdq
+
+/-- The honest rules of Layer A are theorems about the executable model, not assumptions. -/
+theorem model_satisfies_rules {t : Table} {F : Finset Pid} {W : Instance.Votes} (N : Network t F W) :
+    (world t F W).Rules := N.rules
+
+/-- Non-vacuity: a network of four equal members, member 4 Byzantine and equivocating in PREPARE, in which an
+honest member decides `[7, 8]`. -/
+theorem agreement_model_nonvacuous : Nonempty (Network exTbl exF exW) ∧ exW 4 0 .prepare [7, 9] ∧ exW 4 0 .prepare [7, 8] :=
+  ⟨⟨exNet⟩, ex_network_decides.1, ex_network_decides.2.1⟩
+
+end Model
 
 end F3.Props.C01
